@@ -20,7 +20,17 @@ PROPERTY = {
             "into_handlers": "returns exactly H (the handlers of un-answered, non-abandoned requests)",
         }),
     ],
-    "kani": [],
+    "timeout": 900,
+    "kani": [Harness(f"c02_allocate_b{b:02d}", f"C02.stream_id_set.allocate.k{32*b}_{32*b+31}", "PROVED-C",
+                     f"real StreamIdSet::allocate, first non-full word k in {32*b}..={32*b+31} (concrete), word k and all later words symbolic: returns the lowest free id, sets exactly that bit, no i16 overflow",
+                     functions=[F + "StreamIdSet::allocate"]) for b in range(16)] + [
+        Harness("c02_probe_k000", "C02.probe0", "PROVED-C", "probe", carries=False, timeout=300),
+        Harness("c02_probe_k300", "C02.probe300", "PROVED-C", "probe", carries=False, timeout=300),
+        Harness("c02_probe_k511", "C02.probe511", "PROVED-C", "probe", carries=False, timeout=300),
+        Harness("c02_allocate_full", "C02.stream_id_set.allocate.full", "PROVED-C", "all ids used => None, state unchanged", functions=[F + "StreamIdSet::allocate"]),
+        Harness("c02_new_shape", "C02.stream_id_set.new.shape", "PROVED-C", "StreamIdSet::new: 512 zero words", functions=[F + "StreamIdSet::new"]),
+        Harness("c02_canary_allocate_zero", "C02.kani.canary", "PROVED-C", "a false claim must be refuted", carries=False, canary=True),
+    ],
     "trusted_base": [
         "Verus/Z3 soundness; vstd models of std HashMap/BTreeSet/Vec/Box<[T]>",
         "single-task discipline of Connection::router: reader/writer/orphaner only touch the map between awaits on one task, so every schedule is a sequence of allocate/orphan/lookup calls (stated reduction, not proved)",
